@@ -468,7 +468,9 @@ def make_group(node, _1, element, _2, context):
 @evaluate.register_action("X > X")
 def make_nested_imm(node, parent, child, context):
     parent = evaluate(parent, context=context)
-    child = evaluate(child, context=context)
+    # What stands after > holds the focus, also inside an argument list
+    # (f > g() as r puts it on r)
+    child = evaluate(child, context="root")
     parent = _guarantee_call(parent, context=context, node=node)
     if isinstance(child, Element):
         child = child.with_focus()
